@@ -1,6 +1,7 @@
 package main
 
 import (
+	"regexp"
 	"bytes"
 	"fmt"
 	"context"
@@ -151,10 +152,16 @@ func serveScript(e *route.Engine, sc *scriptConn) (out []byte, err error) {
 	select {
 	case <-done:
 	case <-time.After(20 * time.Second):
-		return sc.Output(), errors.New("harness: Serve did not return within 20s (blocked)")
+		return maskDate(sc.Output()), errors.New("harness: Serve did not return within 20s (blocked)")
 	}
-	return sc.Output(), err
+	return maskDate(sc.Output()), err
 }
+
+var dateLine = regexp.MustCompile(`(?m)^Date: [^\r\n]*`)
+
+// maskDate blanks the wall-clock value of Date header fields (error responses carry one even with
+// NoDefaultDate), so that two runs of the same input compare equal across a second boundary.
+func maskDate(b []byte) []byte { return dateLine.ReplaceAll(b, []byte("Date: -")) }
 
 // splitAt cuts b at the given offsets (sorted, within range).
 func splitAt(b []byte, cuts ...int) [][]byte {
